@@ -105,6 +105,12 @@ where
         }
     }
 
+    /// Verification hook: identity of the shared task instance (address of its notifier).
+    #[cfg(p2panda_p2panda_verif)]
+    pub fn verif_addr(&self) -> usize {
+        Arc::as_ptr(&self.ready_signal) as usize
+    }
+
     async fn mark_as_done(&self, result: T) {
         {
             let mut ready_result = self.ready_result.lock().await;
